@@ -123,6 +123,14 @@ func genBufferExtra(load func(string) *pkgInfo) (string, error) {
 	var b strings.Builder
 	bad := func(name string, err error) {
 		msg := strings.ReplaceAll(err.Error(), "\n", " ")
+		// every function these kernels anchor is translated whole and proved equal to the model
+		// (TieBuffer / TieBufferSort): keep the reviewed definition, that tie becomes the obligation
+		if old, ok := keptDef("Buffer", name); ok {
+			fmt.Fprintf(&b, "-- KEPT %s (%s): z.Buffer's methods are translated whole and proved equal to the model in RV/Props/TieBuffer.lean\n%s\n", name, msg, old)
+			fmt.Printf("KEPT Buffer.%s TieBuffer\n", name)
+			keptKernels = append(keptKernels, [2]string{"Buffer." + name, "TieBuffer"})
+			return
+		}
 		fmt.Fprintf(&b, "-- UNTRANSLATABLE %s: %s\n\n", name, msg)
 		fmt.Printf("UNTRANSLATABLE %s: %s\n", name, msg)
 	}
